@@ -58,6 +58,11 @@ def check(case):
     try:
         with Trace(s.pv, cap=60000, keep=False):
             dt = procs.step_length(case, s)
+            if case["steps"] >= 2 and int(case["removal"] * 1e6) % 3 == 0:
+                # a call with the same number of steps and step length that exhausts the feed and raises mid-loop comes first:
+                # whatever it left behind must not leak into the next call (series lengths, time grid)
+                procs.run(case, s, dt, cond_spec=procs.conditions_spec(case, s, dt, amount=case["amount"] * case["removal"] * 0.5))
+                classes.append("after-failed-call")
             model = procs.run(case, s, dt)
     except EvaluationCap:
         raise Discard("evaluation cap reached (termination is C10's subject)")
